@@ -49,7 +49,10 @@ def main():
     Q, _ = np.linalg.qr(rng.normal(size=(n, n)))
     metrics = [("default", None, np.eye(n)), ("identity(n)", M.IdentityMatrix(n), np.eye(n)), ("scaled", M.PositiveScaledIdentityMatrix(1.7, n), 1.7 * np.eye(n)),
                ("diag", np.array([0.5, 2.0, 1.3]), np.diag([0.5, 2.0, 1.3])), ("dense", L @ L.T, L @ L.T),
-               ("eig", M.EigendecomposedPositiveDefiniteMatrix(Q, np.array([0.6, 1.5, 2.4])), Q @ np.diag([0.6, 1.5, 2.4]) @ Q.T)]
+               ("eig", M.EigendecomposedPositiveDefiniteMatrix(Q, np.array([0.6, 1.5, 2.4])), Q @ np.diag([0.6, 1.5, 2.4]) @ Q.T),
+               # eigenvalues that are distinct but agree to 1e-6 (a nearly isotropic metric), and a dense metric with such a spectrum
+               ("nearly-isotropic diag", np.array([1.0, 1.0 + 1e-6, 1.0 - 2e-6]), np.diag([1.0, 1.0 + 1e-6, 1.0 - 2e-6])),
+               ("nearly-isotropic eig", M.EigendecomposedPositiveDefiniteMatrix(Q, np.array([2.0, 2.0 + 3e-6, 2.0 - 1e-6])), Q @ np.diag([2.0, 2.0 + 3e-6, 2.0 - 1e-6]) @ Q.T)]
     for name, m, Mv in metrics:
         Minv = np.linalg.inv(Mv)
         systems = [("Euclidean", S.EuclideanMetricSystem(ell, metric=m, grad_neg_log_dens=gell), False),
@@ -60,7 +63,7 @@ def main():
             tag = f"{sname}[{name}]"
             q, p = rng.normal(size=n) * 0.7, rng.normal(size=n)
             try:
-                for t in (0.3, -0.8, 9.0, -23.5):
+                for t in (0.3, -0.8, 9.0, -23.5) + ((3000.0, -7000.0) if name.startswith("nearly") else ()):
                     st = ChainState(pos=q.copy(), mom=p.copy(), dir=1)
                     sysm.h1_flow(st, t)
                     if not (np.allclose(st.pos, q) and np.allclose(st.mom, p - t * np.asarray(sysm.dh1_dpos(ChainState(pos=q.copy(), mom=p.copy(), dir=1))))):
@@ -68,7 +71,7 @@ def main():
                     st = ChainState(pos=q.copy(), mom=p.copy(), dir=1)
                     sysm.h2_flow(st, t)
                     rhs = (lambda z: np.concatenate([Minv @ z[n:], -z[:n]])) if gaussian else (lambda z: np.concatenate([Minv @ z[n:], 0 * z[:n]]))
-                    ref = rk4(rhs, np.concatenate([q, p]), t)
+                    ref = rk4(rhs, np.concatenate([q, p]), t) if abs(t) < 100 else np.concatenate([st.pos, st.mom])  # long intervals: exact laws below only
                     if not np.allclose(np.concatenate([st.pos, st.mom]), ref, rtol=1e-6, atol=1e-7):
                         fails.append(f"{tag}: h2_flow(t={t}) differs from the numerically integrated Hamilton equations by {np.max(np.abs(np.concatenate([st.pos, st.mom]) - ref)):.2e}")
                     h2_before = sysm.h2(ChainState(pos=q.copy(), mom=p.copy(), dir=1))
